@@ -3,6 +3,7 @@ C02 — No task instance runs twice in a flow without intervention; retries.
 Property theorems only (proofs in `SchedLemmasC02`, on top of the atomic-action refinement of `Sched`).
 -/
 import CylcModel.SchedLemmasC02
+import CylcModel.SchedEnvC02
 namespace CylcModel.C02
 open CylcModel.Sched
 
@@ -17,7 +18,7 @@ theorem no_double_submit (g : Graph) (hwf : g.wf = true) (ops : List Op) (p : In
 
 /-- per atomic action: a launch carries the submit number on record plus one and makes it the number on record;
 every other action leaves all numbers on record and the launch log alone -/
-theorem launch_increments_record (g : Graph) (allow : Proxy → Bool) (s s' : State) (ha : Act g allow s s') :
+theorem launch_increments_record (g : Graph) (K : Kinds) (s s' : State) (ha : Act g K s s') :
     (s'.launched = s.launched ∧ ∀ p n, snOf s' p n = snOf s p n) ∨
     (∃ p n, s'.launched = s.launched ++ [(p, n, snOf s p n + 1)] ∧ snOf s' p n = snOf s p n + 1 ∧
       ∀ q m, ¬ (q = p ∧ m = n) → snOf s' q m = snOf s q m) :=
@@ -33,7 +34,7 @@ theorem retry_counters_bounded (g : Graph) (hwf : g.wf = true) (ops : List Op) :
 of them, `C01.step_refines`): if it makes the `failed` output of the pooled proxy of `(p, n)` complete, then in
 the state it acts on no execution retry remained (`¬ (submitNum > 0 ∧ execTry < N)`) — or the proxy is being
 revived from a history record that had the output already.  Likewise `submit-failed` and submission retries. -/
-theorem final_output_only_when_exhausted (g : Graph) (allow : Proxy → Bool) (s s' : State) (ha : Act g allow s s')
+theorem final_output_only_when_exhausted (g : Graph) (K : Kinds) (s s' : State) (ha : Act g K s s')
     (p : Int) (n : String) :
     (¬ poolHas s p n "failed" → poolHas s' p n "failed" →
       (∃ x, s.get? p n = some x ∧ ¬ (x.submitNum > 0 ∧ x.execTry < maxExec g n)) ∨
@@ -50,14 +51,60 @@ theorem final_children_only_after_completion (g : Graph) (hwf : g.wf = true) (op
     ∀ s ∈ run g ops, ∀ x ∈ s.pool, Valid g (completedB s) x :=
   fun s hs => (c01_run hwf ops s hs).2.valid
 
-/-- **retry_bound, full statement — NOT proved here**: under the environment assumption `envOK` (a failed
-job-submission is reported only for an instance that is still preparing; jobs never send "submit-failed") and
-without suicide triggers, an instance is launched at most `(N+1)*(M+1)` times.  Proved: the try counters are
-bounded (`retry_counters_bounded`), submit numbers are consecutive (`no_double_submit`), the bound for the retry
-automaton (`retry_automaton_bound`).  The judge checks the bound on every real run. -/
+theorem lastState_mem_trace (g : Graph) : ∀ (ops : List Op) (s : State), lastState g s ops ∈ trace g s ops := by
+  intro ops; induction ops with
+  | nil => intro s; simp [lastState, trace]
+  | cons op ops ih =>
+    intro s
+    have : lastState g s (op :: ops) = lastState g (step g s op) ops := rfl
+    rw [this]
+    simp only [trace, List.mem_cons]
+    exact Or.inr (ih _)
+
+/-- **retry_bound.** For a graph without suicide triggers (`g.noSui`, decidable) and a run that respects the
+environment assumption `envOK2` (decidable, on the operation list: a failed job-submission is reported only for
+an instance that is still preparing; job messages carry a submit number ≥ 1 and never read "submit-failed"):
+in every state the submit number of every pooled proxy and of every history record is at most
+`(N+1)*(M+1)`, `N` / `M` the numbers of execution / submission retry delays of the task. -/
+theorem retry_bound_states (g : Graph) (hwf : g.wf = true) (hns : g.noSui = true) (ops : List Op)
+    (henv : envOK2 g ops = true) : ∀ s ∈ run g ops,
+      (∀ x ∈ s.pool, x.submitNum ≤ (maxExec g x.name + 1) * (maxSub g x.name + 1)) ∧
+      (∀ h ∈ s.hist, h.submitNum ≤ (maxExec g h.name + 1) * (maxSub g h.name + 1)) := by
+  intro s hs
+  have h := (env_run hwf hns ops henv s hs).2
+  exact ⟨fun x hx => (h.pool x hx).bound, fun hh hm => (h.hist hh hm).2⟩
+
+/-- **retry_bound**, in terms of launches: under the same hypotheses an instance `(p, n)` is launched at most
+`(N+1)*(M+1)` times in the whole run (with `no_double_submit`: the launches carry the numbers `1..k`, `k` the
+submit number on record at the end). -/
+theorem retry_bound (g : Graph) (hwf : g.wf = true) (hns : g.noSui = true) (ops : List Op)
+    (henv : envOK2 g ops = true) (p : Int) (n : String) :
+    (snsOf ((run g ops).flatMap (·.launched)) p n).length ≤ (maxExec g n + 1) * (maxSub g n + 1) := by
+  rw [no_double_submit g hwf ops p n, List.length_range']
+  have hmem : lastState g (init g) ops ∈ run g ops := by rw [run_eq_trace]; exact lastState_mem_trace g ops _
+  obtain ⟨hp, hh⟩ := retry_bound_states g hwf hns ops henv _ hmem
+  unfold snOf
+  cases hg : (lastState g (init g) ops).get? p n with
+  | some x =>
+    have hx := get?_some_spec hg
+    have := hp x hx.1
+    rw [hx.2.2] at this
+    exact this
+  | none =>
+    simp only
+    cases hl : lastHist (lastState g (init g) ops) n p with
+    | none => exact Nat.zero_le _
+    | some h =>
+      have hm := lastHist_mem hl
+      have := hh h hm.1
+      rw [hm.2.2] at this
+      exact this
+
+/-- what remains outside: graphs with suicide triggers (a proxy removed by a suicide trigger and spawned again
+starts with fresh try counters but keeps its submit number) and operation lists outside the environment
+assumption; on those the judge decides -/
 def retry_bound_full : Prop :=
-  ∀ (g : Graph) (ops : List Op), g.wf = true → envOK g ops = true →
-    (∀ t ∈ g.tasks, ∀ pd ∈ t.insts, pd.2.sui = []) →
+  ∀ (g : Graph) (ops : List Op), g.wf = true → envOK2 g ops = true →
     ∀ p n, snOf (lastState g (init g) ops) p n ≤ (maxExec g n + 1) * (maxSub g n + 1)
 
 /-! ### the retry automaton of one proxy -/
@@ -152,6 +199,9 @@ example : exGraph.wf = true ∧
     ((run exGraph exOps).map fun s => s.pool.map fun x => (x.status, x.execTry, x.done.contains "failed")) =
       [[(.waiting, 0, false)], [(.preparing, 0, false)], [(.submitted, 0, false)], [(.submitted, 0, false)],
        [(.waiting, 1, false)], [(.preparing, 1, false)]] := by decide
+
+-- the hypotheses of `retry_bound` hold for the example (bound (1+1)*(0+1) = 2, reached)
+example : exGraph.noSui = true ∧ envOK2 exGraph exOps = true := by decide
 
 -- the automaton: N = 1, M = 0: launch, started, exec retry, launch reaches 2 = (1+1)*(0+1) launches
 example : RReach 1 0 ⟨1, 0, 2, 1⟩ :=
